@@ -460,6 +460,14 @@ theorem allow_atomic : under "Syncer.allowConnect" "call s.mu.Lock" "call s.mu.U
 theorem addPeer_atomic : under "Syncer.addPeer" "call s.mu.Lock" "call s.mu.Unlock"
     ["range s.peers", "index s.peers", "event s.addpeer", "event s.addpeer.rej"] = true := by decide
 
+/-- addPeer: the peer store is consulted BEFORE the peer is inserted (and outside s.mu): an error of
+the store leaves no entry in s.peers — nothing would ever remove it (runPeer only runs for a peer
+that was added), Run's wait for the peer set to drain would never end -/
+theorem addPeer_store_before_insert :
+    (before "Syncer.addPeer" "call s.pm.AddPeer" "call s.mu.Lock" &&
+     before "Syncer.addPeer" "call s.pm.UpdatePeerInfo" "call s.mu.Lock" &&
+     before "Syncer.addPeer" "call s.pm.UpdatePeerInfo" "index s.peers") = true := by decide
+
 /-! ### Close = Stop (models: Srv, TD) -/
 
 theorem closes_stop_group :
